@@ -16,6 +16,7 @@ import PgProofs.C05Typed
 import PgProofs.C05Sig
 import PgProofs.C05Handles
 import PgProofs.C05Dna
+import PgProofs.C05Opts
 namespace Pg.C05
 
 /-! ## T-SIG: value specs can be rebuilt from what `to_json` emits -/
@@ -90,6 +91,12 @@ theorem C05_sig_F12_counterexample :
 
 /-! ## Codec: object form -/
 
+def envP : ClassEnv := ⟨[("P".toList, [
+  { name := ['x'], kind := .int, noneable := false, default := none, frozen := false },
+  { name := ['k'], kind := .str, noneable := false, default := some (.leaf (.str ['r'])), frozen := true }])]⟩
+
+
+
 /-- ROUND TRIP, object form, for every tree (all shapes, depths, key types, registered classes,
 partial objects): a conforming value none of whose plain shapes is reserved by the encoding loads
 back as *the same tree* — hence symbolically equal, of the same type at every node, with the same
@@ -103,6 +110,29 @@ theorem C05_roundtrip (env : ClassEnv) (hwf : env.WF = true) (ap : Bool) (t : Tr
   rw [rs_tree env t hc he]
   simp only [if_true]
   exact rt_tree env ap (fun c attrs h1 h2 h3 => construct_ok env hwf ap c attrs h1 h2 h3) t hc he hm
+
+/-- ROUND TRIP UNDER OPTIONS: for every combination of `hide_frozen` and `hide_default_values`
+(passed down to all descendants), `from_json(to_json(v, **options)) = v` for the same class of
+trees: what is hidden — frozen fields, values equal to their field's default, MISSING — is exactly
+what `Object.__init__` restores from the class schema. (`C05_roundtrip` is the instance
+`hide_frozen=True, hide_default_values=False`.) -/
+theorem C05_roundtrip_opts (o : JOpts) (env : ClassEnv) (hwf : env.WF = true) (ap : Bool) (t : Tree)
+    (hc : Conforms env t = true) (he : Encodable false t = true)
+    (hm : ap = true ∨ NoMissing t = true) :
+    fromJson env ap (toJsonO o env t) = .ok t := by
+  unfold fromJson
+  rw [rsO_tree o env t hc he]
+  simp only [if_true]
+  exact rtO_tree o env hwf ap t hc he hm
+
+/-- With `hide_default_values` an attribute at its default really is left out (so the theorem is
+not about an option that does nothing): `P(x=3, k='r')` with default `k='r'` emits `x` only, also
+when `hide_frozen=False`. -/
+theorem C05_opts_hide (o : JOpts) (ho : o.hideDefault = true) :
+    toJsonO o envP (.obj "P".toList [(['x'], .leaf (.int 3)), (['k'], .leaf (.str ['r']))]) =
+      .obj [(.s typeKey, .str "P".toList), (.s ['x'], .int 3)] := by
+  simp [toJsonO, toJsonOA, ClassEnv.fieldsOf, ClassEnv.find, envP, hiddenAttr, findField, isMissing, ho,
+    Tree.beq, atomJ]
 
 /-- The same statement without the `Encodable` hypothesis … -/
 def C05_roundtrip_Full : Prop :=
@@ -850,10 +880,6 @@ theorem C05_handles_history :
   decide
 
 /-! ## Non-vacuity -/
-
-def envP : ClassEnv := ⟨[("P".toList, [
-  { name := ['x'], kind := .int, noneable := false, default := none, frozen := false },
-  { name := ['k'], kind := .str, noneable := false, default := some (.leaf (.str ['r'])), frozen := true }])]⟩
 
 def sampleTree : Tree :=
   .dict [(.i 5, .tuple [.leaf .none,
